@@ -29,7 +29,11 @@ R5 resolution is a function of the configuration at hand: the resolver functions
 Recognisers: the tests of R1 (`<config> is None`, `name in node`), R2 (`<key> in <visited>`) and R4 (`'step' in node`) are
 found through branch facts (sfverif.facts): the outcome of a CFG test that *implies* the canonical atom, whatever the
 spelling (`is not`/`not .. is`, `not in`/`not (.. in ..)`, swapped branches, guard clauses, conjuncts); where the clause
-says "exactly when" the other outcome must imply the negated atom.  The value of a `return` is followed through
+says "exactly when" the other outcome must imply the negated atom.  The loop condition of `_get_workdir` (R3) is
+read the same way: the `continue the walk` outcome must imply exactly `(workdir := d.get('workdir')) is None` = true and
+`(wraps := d.get('wraps')) is None` = false, in this evaluation order (`is not None`, `not (.. is None)`, the De Morgan
+form `not (.. is not None or .. is None)` and `None is ..` are one shape; `or`, a flipped polarity, a swapped order, a
+dropped or an additional conjunct are not).  The value of a `return` is followed through
 temporaries with reaching definitions (`ret = X; return ret` in several branches is one value per return).
 Known limit (refused as a finding, not accepted silently): a single-exit rewrite of get_binding_config
 (`ret = <fallback>` before the test, overwritten on the bound branch, one `return ret`) is not recognised as tied to
@@ -126,6 +130,17 @@ def _cmp_atom(a, op):
     """(left, right) of a canonical one-operator comparison atom `left <op> right`, else None."""
     if isinstance(a, ast.Compare) and len(a.ops) == 1 and isinstance(a.ops[0], op):
         return _plain(a.left), _plain(a.comparators[0])
+    return None
+
+
+def _none_walrus(a):
+    """The walrus `(x := e)` of a canonical atom `(x := e) is None` / `None is (x := e)`, else None."""
+    if isinstance(a, ast.Compare) and len(a.ops) == 1 and isinstance(a.ops[0], ast.Is):
+        x, y = a.left, a.comparators[0]
+        if isinstance(x, ast.NamedExpr) and const(y) is None:
+            return x
+        if isinstance(y, ast.NamedExpr) and const(x) is None:
+            return y
     return None
 
 
@@ -585,26 +600,26 @@ def r3(ctx):
     loop, wvar, dvar, adv = _wraps_walk(ctx, gw, "R3")
     ctx.require(gw.params and gw.params[0] == dvar, "C28.R3: _get_workdir does not walk from its first parameter")
     t = loop.test
-    wd_cmp = wr_cmp = None
-    if isinstance(t, ast.BoolOp) and isinstance(t.op, ast.And) and len(t.values) == 2:
-        a, b = t.values
-        if isinstance(a, ast.Compare) and len(a.ops) == 1 and isinstance(a.left, ast.NamedExpr) and const(a.comparators[0]) is None:
-            wd_cmp = a
-        if isinstance(b, ast.Compare) and len(b.ops) == 1 and isinstance(b.left, ast.NamedExpr) and const(b.comparators[0]) is None:
-            wr_cmp = b
-    shape = wd_cmp is not None and wr_cmp is not None
-    wd_var = wd_cmp.left.target.id if shape else None
+    # Branch facts instead of the spelling: the outcome `continue the walk` (test true) must imply exactly the two
+    # canonical atoms `(workdir := d.get('workdir')) is None` = True and `(wraps := d.get('wraps')) is None` = False,
+    # in this evaluation order (the own workdir is bound before the short-circuit on wraps can skip it).  Accepts
+    # `is not None` / `not (.. is None)` / `not (wd is not None or wraps is None)` / `None is ..`; rejects `or`
+    # (a true disjunction stays one compound atom), inverted polarity, swapped order, dropped or extra conjuncts.
+    cont = [(_none_walrus(a), v) for a, v in atoms(t, True)]
+    shape = len(cont) == 2 and all(w is not None for w, _ in cont)
+    (wd_w, wd_truth), (wr_w, wr_truth) = cont if shape else ((None, None), (None, None))
+    wd_var = wd_w.target.id if shape else None
     ok_test = (
         shape
-        and isinstance(wd_cmp.ops[0], ast.Is)
-        and isinstance(wr_cmp.ops[0], ast.IsNot)
-        and wr_cmp.left.target.id == wvar
-        and isinstance(wd_cmp.left.value, ast.Call)
-        and isinstance(wd_cmp.left.value.func, ast.Attribute)
-        and wd_cmp.left.value.func.attr == "get"
-        and is_name(wd_cmp.left.value.func.value, dvar)
-        and bool(wd_cmp.left.value.args)
-        and const(wd_cmp.left.value.args[0]) == "workdir"
+        and wd_truth is True
+        and wr_truth is False
+        and wr_w.target.id == wvar
+        and isinstance(wd_w.value, ast.Call)
+        and isinstance(wd_w.value.func, ast.Attribute)
+        and wd_w.value.func.attr == "get"
+        and is_name(wd_w.value.func.value, dvar)
+        and bool(wd_w.value.args)
+        and const(wd_w.value.args[0]) == "workdir"
     )
     ctx.ob("R3", "_get_workdir reads the own workdir first and follows wraps only while it is None", ok_test, func=gw, node=loop,
            instance="gwd:loop-test",
@@ -873,6 +888,8 @@ _VISITED_OLD = (
     "            else:\n                deployments.add(deployment['name'])"
 )
 
+_GWD_TEST_OLD = "while (workdir := deployment.get('workdir')) is None and (wraps := deployment.get('wraps')) is not None:"
+
 VARIANTS = [
     # ---- R1
     V("get instead of propagate", UFILE, GBC, "workflow_config.propagate(path, target_type)", "workflow_config.get(path, target_type)",
@@ -1018,4 +1035,23 @@ VARIANTS = [
     V("visited test weakened by a conjunct", CFILE, CHECK, "if deployment['name'] in deployments:",
       "if deployment['name'] in deployments and isinstance(wraps, str):", "R2"),
     V("negated set_targets guard without swapping", CFILE, f"{CFGM}.set_targets", "if 'step' not in node:", "if not 'step' not in node:", "R4"),
+    # ---- _get_workdir loop condition through branch facts (tools/benign_battery.py: notform) and relatives
+    V("notform: `not (wraps := ..) is None` in the _get_workdir loop condition", UFILE, GWD,
+      "(wraps := deployment.get('wraps')) is not None", "(not (wraps := deployment.get('wraps')) is None)", None),
+    V("De Morgan form of the _get_workdir loop condition, constants on the left", UFILE, GWD, _GWD_TEST_OLD,
+      "while not (None is not (workdir := deployment.get('workdir')) or None is (wraps := deployment.get('wraps'))):", None),
+    V("double negation of the own-workdir test in _get_workdir", UFILE, GWD,
+      "(workdir := deployment.get('workdir')) is None", "(not (not (workdir := deployment.get('workdir')) is None))", None),
+    V("notform spelling with the wrong polarity on wraps", UFILE, GWD,
+      "(wraps := deployment.get('wraps')) is not None", "(not (wraps := deployment.get('wraps')) is not None)", "R3"),
+    V("notform spelling with the wrong polarity on the own workdir", UFILE, GWD,
+      "(workdir := deployment.get('workdir')) is None", "(not (workdir := deployment.get('workdir')) is None)", "R3"),
+    V("De Morgan form with `and` left inside the negation", UFILE, GWD, _GWD_TEST_OLD,
+      "while not ((workdir := deployment.get('workdir')) is not None and (wraps := deployment.get('wraps')) is None):", "R3"),
+    V("wraps examined before the own workdir", UFILE, GWD, _GWD_TEST_OLD,
+      "while (wraps := deployment.get('wraps')) is not None and (workdir := deployment.get('workdir')) is None:", "R3"),
+    V("own workdir test dropped from the loop condition", UFILE, GWD, _GWD_TEST_OLD,
+      "while (workdir := deployment.get('workdir')) is not False and (wraps := deployment.get('wraps')) is not None:", "R3"),
+    V("extra conjunct ends the walk early", UFILE, GWD, _GWD_TEST_OLD,
+      _GWD_TEST_OLD[:-1] + " and isinstance(wraps, str):", "R3"),
 ]
